@@ -9,10 +9,43 @@ that uses `include_custom_schema_directives=False` and `include_introspection=Fa
     lexAll -> parseDocument(allow_type_system, no_location) on the printed text gives exactly the tree of the document
     the printer denotes (`docToAst (printedDoc s)`) -- the statement `print_schema_text_parses`, evaluated;
   * direct oracle on the real code for the same claim: the real parser accepts the real text;
-  * how many printed schemas satisfy `printTextWF` (non-vacuity of the theorem on the stream) is recorded.
+  * how many printed schemas satisfy `printTextWF` (non-vacuity of the theorem on the stream) is recorded;
+  * a fixed corpus of DESCRIPTION SHAPES (`shape_cases`): every layout decision of `print_description` / `print_arguments`
+    (the 70-column one-line limit, wrapping at 120 - indent with and without spaces, several lines, first line led by white
+    space, closing quote, triple quote inside, final backslash, tabs, blank lines, non-ASCII) at every position a description can
+    have (type, field, argument, enum value, input field, directive, directive argument), three indentations.
 Called from corr/C12.py:run (one call).
 """
 PART = "C12_text"
+
+SHAPE_SDL = """
+directive @tag(n: Int, m: String) on FIELD
+type Query { a(x: Int = 3, y: String): Int  b: String }
+enum Color { RED GREEN }
+input Filter { color: Color = RED, limit: Int }
+"""
+
+SHAPES = [
+    "short", "x" * 69, "x" * 70, "x" * 71, "word " * 13 + "w" * 4, "word " * 13 + "w" * 5,
+    " ".join("word%d" % i for i in range(40)), "y" * 119, "y" * 130, "ab " * 60, "z" * 111 + " tail end", "z" * 112 + " tail end",
+    "two\nlines", "  led by blanks", "  led\n  and more", "\tled by a tab\nnext", "line\n\n  indented\nlast", "a\n  b\n    c",
+    'ends with quote"', 'has \"\"\" inside', 'has \"\"\" inside\nand a second line', "ends with backslash\\", "tab\there",
+    'say "hi"', "literal \\n backslash-n", "caf\u00e9 \u65e5\u672c", "", " ", "trailing newline\n", "\nleading newline",
+    "trailing blanks   ", "  both  ", "x" * 64 + '"', "multi\n" + "w" * 125 + "\nend", "q " * 58 + "q", "q " * 59 + "q",
+]
+
+
+def shape_cases():
+    """(source label, Schema) -- `mixed:k` has shape (k + 3j) mod n at position j, `uniform:k` has shape k at every position"""
+    from py_gql import build_schema
+    n = len(SHAPES)
+    for k in range(2 * n):
+        sch = build_schema(SHAPE_SDL)
+        q, c, f, d = sch.types["Query"], sch.types["Color"], sch.types["Filter"], sch.directives["tag"]
+        slots = [q, q.fields[0], q.fields[0].arguments[0], q.fields[1], c, c.values[0], f, f.fields[0], d, d.arguments[1]]
+        for j, node in enumerate(slots):
+            node.description = SHAPES[(k + 3 * j) % n] if k < n else SHAPES[k - n]
+        yield ("description-shapes:%s:%d" % ("mixed" if k < n else "uniform", k % n), sch)
 
 
 def run(ctx, histories, wire_schema):
@@ -33,13 +66,25 @@ def run(ctx, histories, wire_schema):
             ws = wire_schema(schemas[i][2])
             reqs.append({"op": "printT", "schema": ws["schema"], "indent": ind, "descriptions": o["include_descriptions"]})
             meta.append((schemas[i][1], o, out[1]))
+    try:
+        for src, sch in shape_cases():
+            ws = wire_schema(sch)
+            for indent in (4, 2, "\t"):
+                o = dict(indent=indent, include_descriptions=True, include_introspection=False, include_custom_schema_directives=False)
+                ind = (" " * indent) if isinstance(indent, int) else indent
+                reqs.append({"op": "printT", "schema": ws["schema"], "indent": ind, "descriptions": True})
+                meta.append((src, o, sch.to_string(**o)))
+                ctx.stat("textT-description-shapes")
+    except Exception as e:  # noqa
+        ctx.fail("internal:shape-corpus:%s" % type(e).__name__, "the description-shape corpus could not be built / printed",
+                 {"part": PART, "error": repr(e)})
     if not reqs:
         return
     import time as _t
     _t0 = _t.time()
     answers = ctx.driver.ask(reqs)
     ctx.extra["textT_driver_seconds"] = round(_t.time() - _t0, 1)
-    n_wf = n_desc = 0
+    n_wf = n_desc = n_shape = n_shape_wf = 0
     for (src, o, real), a in zip(meta, answers):
         ctx.count()
         ctx.stat("textT")
@@ -53,8 +98,11 @@ def run(ctx, histories, wire_schema):
                      kind="correspondence")
         if o["include_descriptions"]:
             n_desc += 1
+            shape = isinstance(src, str) and src.startswith("description-shapes")
+            n_shape += shape
             if a.get("wf"):
                 n_wf += 1
+                n_shape_wf += shape
                 ctx.nontrivial(("textT", real))
                 if not a.get("parses"):
                     ctx.fail("corr:printT:textParses", "printTextWF holds but the model's lexer+parser do not return the denoted tree "
@@ -64,4 +112,5 @@ def run(ctx, histories, wire_schema):
                 except Exception as e:  # noqa
                     ctx.fail("text-unparsable:%s:printTextWF" % type(e).__name__,
                              "printTextWF holds but the real parser rejects the real printed text", detail)
-    ctx.extra["printTextWF_satisfied"] = "%d of %d printed schemas (descriptions on, no custom directives)" % (n_wf, n_desc)
+    ctx.extra["printTextWF_satisfied"] = ("%d of %d printed schemas (descriptions on, no custom directives); of these %d of %d in "
+                                          "the description-shape corpus" % (n_wf, n_desc, n_shape_wf, n_shape))
